@@ -50,7 +50,16 @@ def gen_cases(tier, seed):
     return cases
 
 
-def _system(case, rng, dt, K):
+def finalize(results, tier, seed):
+    """a quadrature that does not converge decides nothing: more than 10 % such ladders (none occur on the pinned tree) => inconclusive"""
+    lad = sum(1 for r in results if r["case"].get("type") == "ladder")
+    bad = sum((r.get("counters") or {}).get("quadrature_not_converged", 0) for r in results)
+    if lad and bad > max(1, 0.1 * lad):
+        return [ev("quadrature/too-many-not-converged", None, key="C04/quadrature-not-converged", hard=True, ladders=lad, not_converged=bad)]
+    return []
+
+
+def _system(case, rng, dt, K, force_batch=None):
     seed_t = case["s"]
     norb = case["norb"]
     # unrestricted walkers: spin-dependent h1 for the spin-unrestricted kinds; restricted walkers: the propagator is defined with the spin
@@ -58,8 +67,11 @@ def _system(case, rng, dt, K):
     # restricted cases get spin-dependent h1 too and are judged against H built from the average
     sd = (case["wt"] == "uhf" and case["kind"] in trials.SPIN_DEP_H1) or (case["wt"] == "rhf" and seed_t % 2 == 0)
     ham = trials.rand_ham(np.random.default_rng(seed_t + 11), norb, case["nchol"], spin_dep=sd, chol_scale=0.6)
+    # the step must not depend on how the population of quadrature nodes is split into batches (unequal batch count / batch size on purpose)
+    nbs = [b for b in (1, 2, 3, K // 2) if b >= 1 and K % b == 0 and (b == 1 or b != K // b)]
+    n_batch = nbs[(seed_t // 3) % len(nbs)] if force_batch is None else force_batch
     S = afqmc.make_system(case["kind"], norb, tuple(case["nelec"]), np.random.default_rng(seed_t), walker_type=case["wt"], dt=dt, n_walkers=K,
-                          nchol=case["nchol"], ham=ham, rdm1=case.get("rdm1", "trial") if case.get("rdm1") != "random" else "random",
+                          nchol=case["nchol"], ham=ham, n_batch=n_batch, trial_batch=[1, n_batch][seed_t % 2], rdm1=case.get("rdm1", "trial") if case.get("rdm1") != "random" else "random",
                           ene0=float(np.random.default_rng(seed_t + 13).choice([0.0, -2.0, 1.5])),   # must be irrelevant for the phaseless step
                           orthonormal=False if case["kind"] in ("uhf", "rhf", "noci", "ghf") else True,
                           trial_opts={"ms_ndets": 6} if case["kind"] == "multislater" else None)
@@ -188,6 +200,19 @@ def run_ladder(case):
             vals.append(lhs)
             if n == n_lo:
                 _weight_law(case, S, res, nodes, dt, case["eshift"], wu, wd, phi, None, events, key, F)
+            if n == n_lo and dt == dts[0] and S["prop"].n_batch > 1:
+                # what the quadrature integrates must be a function of (walker, field node) alone: the same nodes through an unbatched
+                # propagator give the same per-node importance factors, walkers and overlaps (otherwise the n / n+4 comparison below
+                # would merely report "quadrature not converged")
+                S1 = _system(case, rng, dt, nodes.shape[0], force_batch=1)
+                res1 = _propagate_nodes(case, S1, wu, wd, nodes, case["eshift"])
+                cnt["hook_reads"] += 1
+                d_i = float(np.max(np.abs(res["I"] - res1["I"])) / max(1.0, float(np.max(np.abs(res1["I"])))))
+                wa, wb = res["walkers"], res1["walkers"]
+                d_w = max(float(np.max(np.abs(a - b))) if a.size else 0.0 for a, b in (zip(wa, wb) if isinstance(wa, list) else [(wa, wb)]))
+                d_o = float(np.max(np.abs(res["overlaps"] - res1["overlaps"]) / np.maximum(np.abs(res1["overlaps"]), 1e-300)))
+                events.append(judge("step/independent-of-batch-split", max(d_i, d_w, d_o), 1e-9, key + "/batch-split",
+                                    n_batch=int(S["prop"].n_batch), nodes=int(nodes.shape[0]), parts={"I": d_i, "walkers": d_w, "overlaps": d_o}))
         h1 = np.asarray(S["h1"])
         if case["wt"] == "rhf":
             hav = (h1[0] + h1[1]) / 2
